@@ -96,6 +96,8 @@ class Sampler(object):
             big = np.empty((out.shape[0], out.shape[1] * 2) + out.shape[2:], dtype=out.dtype)
             big[:, ::2] = out
             out = big[:, ::2]
+        elif self.view == 3 and out.dtype.itemsize > 1:
+            out = out.astype(out.dtype.newbyteorder(">"))      # what indexing into FITS data gives: big-endian samples
         return out
 
     def _values(self, lon, lat):
@@ -175,7 +177,7 @@ def run_one(ch, env):
         kind = "F32"
     if kind in ("U8", "I16", "I32") and update:
         kind = "F32"        # integer scalar samplers: clobbering mode only (integer updates keep the larger value)
-    view = ch.draw(3, kind="sampler_output_view")
+    view = ch.draw(4, kind="sampler_output_view")
     if kind == "U8":
         default_fmt = "npy"
     elif kind in ("I16", "I32"):
